@@ -366,17 +366,17 @@ Proof.
   2:{ inversion H. subst. split; [exact HW|]. split; [exact Hnd|]. split; [constructor|]. intros o id E. discriminate E. }
   destruct (nth_error (ps_trail st) (length (ps_trail st) - 1 - ps_pidx st)) as [e|] eqn:Ee; [|discriminate].
   set (L := (tvar e, negb (snd (t_lit e)))) in *.
-  set (st0 := mkPS (ps_trail st) (S (ps_pidx st)) (ps_watch st) (ps_lists st)) in *.
-  assert (HWalk : WalkInv L (lget (ps_lists st0) L) [] st0).
-  { destruct HW as [A B C]. constructor; unfold st0; simpl; auto. }
-  assert (Hnd0 : tnodup st0) by exact Hnd.
-  assert (HL : plit_false st0 L = true).
+  assert (HWalk : WalkInv L (lget (ps_lists st) L) [] st).
+  { destruct HW as [A B C]. constructor; simpl; auto. }
+  assert (HL : plit_false st L = true).
   { apply plit_false_spec. unfold L. simpl. rewrite Bool.negb_involutive. apply (nth_pvalue st _ e Hnd Ee). }
-  destruct (visit_list db L level (lget (ps_lists st0) L) [] st0) as [[st1 r1]|] eqn:Ev; [|discriminate].
-  destruct (visit_list_sound L level _ _ _ _ _ HWalk Hnd0 HL Ev) as [R1 [R2 [R3 [_ R5]]]].
+  destruct (visit_list db L level (lget (ps_lists st) L) [] st) as [[st1 r1]|] eqn:Ev; [|discriminate].
+  destruct (visit_list_sound L level _ _ _ _ _ HWalk Hnd HL Ev) as [R1 [R2 [R3 [_ R5]]]].
   destruct r1 as [cf|].
   - inversion H. subst. split; [exact R1|]. split; [exact R2|]. split; [exact R3 | exact R5].
-  - destruct (IH _ _ _ R1 R2 H) as [S1 [S2 [S3 S4]]].
+  - assert (R1' : WInv (ps_watch (mkPS (ps_trail st1) (S (ps_pidx st1)) (ps_watch st1) (ps_lists st1)))
+                       (ps_lists (mkPS (ps_trail st1) (S (ps_pidx st1)) (ps_watch st1) (ps_lists st1)))) by exact R1.
+    destruct (IH _ _ _ R1' R2 H) as [S1 [S2 [S3 S4]]].
     split; [exact S1|]. split; [exact S2|]. split; [eapply grows_trans; [exact R3 | exact S3] | exact S4].
 Qed.
 
